@@ -4,10 +4,10 @@ set -u
 PROP=$1; PATCH=$2; shift 2
 if ! git -C /repo diff --quiet; then echo "sens: /repo is dirty" >&2; exit 3; fi
 git -C /repo apply "$(realpath "$PATCH")" || { echo "sens: patch does not apply" >&2; exit 3; }
-( cd /repo && go build ./... ) || { echo "sens: does not build"; git -C /repo checkout -- .; exit 3; }
+( cd /repo && go build ./... ) || { echo "sens: does not build"; git -C /repo checkout -- . && git -C /repo clean -fdq; exit 3; }
 /verif/bin/check run "$PROP" --tier quick "$@" > /tmp/sens.$$.out 2>&1
 rc=$?
-git -C /repo checkout -- .
+git -C /repo checkout -- . && git -C /repo clean -fdq
 grep -E "^violation class|^VIOLATION|^check .* tier|HARNESS|KNOWN" /tmp/sens.$$.out | cut -c1-260
 echo "sens: $PROP $(basename $PATCH) -> exit $rc"
 rm -f /tmp/sens.$$.out
